@@ -3,6 +3,7 @@ import Tmcg.Model.Tsig
 /-
   Line-protocol handlers of area "tsig" (property C16, verifiers; harness/drv_tsig.cc):
     tsig.dss.verify p q g y m r s => 0|1
+    tsig.nts.verify p q g y m c s [hash log] => 0|1
 -/
 namespace Tmcg.DriverTsig
 open Tmcg Tmcg.Driver
@@ -14,6 +15,14 @@ def hDssVerify : Handler
     some (showEB (Tsig.dssVerify ⟨p, q, g⟩ y m r s))
   | _ => none
 
-def handlers : List (String × Handler) := [("tsig.dss.verify", hDssVerify)]
+/-- tsig.nts.verify p q g y m c s [log] => 0|1 -/
+def hNtsVerify : Handler
+  | [p, q, g, y, m, c, s, log] => do
+    let p ← pInt p; let q ← pInt q; let g ← pInt g; let y ← pInt y
+    let m ← pInt m; let c ← pInt c; let s ← pInt s; let log ← pOracle log
+    some (withOracle log fun H => showEB (Tsig.ntsVerify H ⟨p, q, g⟩ y m c s))
+  | _ => none
+
+def handlers : List (String × Handler) := [("tsig.dss.verify", hDssVerify), ("tsig.nts.verify", hNtsVerify)]
 
 end Tmcg.DriverTsig
